@@ -176,6 +176,15 @@ def r1(ctx, rep):
     rep.instance(R1, ok=ok, nontrivial='_unmodal_values')
     if not ok:
         rep.finding(R1, 'C08.R1/_unmodal_values', m.loc(MODELS, f('_unmodal_values')), 'BaseModel._unmodal_values', f'does not yield the operand\'s value at every world accessible from the given world: {r!r}')
+    # overrides in logic modules pass the evaluation keywords (world=...) on
+    nsem = 0
+    for lg in ctx.lgs:
+        sem = ctx.sem(lg)
+        nsem += 1
+        rep.instance(R1, ok=not sem.kw_drops, nontrivial=(lg.name, 'kw-propagation'))
+        for where, callee in sem.kw_drops:
+            rep.finding(R1, f'C08.R1/{lg.name}/kw-dropped/{callee}', where.split(' ')[0], f'{lg.name}: {where.split(" ")[-1]}',
+                        f'calls self.{callee}(...) without passing **kw on: the sub-evaluation happens at world 0 instead of the world being evaluated')
     # leaf lookups
     for name, store in (('value_of_atomic', 'atomics'), ('value_of_opaque', 'opaques')):
         fr = Obj('frame', **{store: {'p': 'VAL'}})
